@@ -6,6 +6,7 @@
 
    CalculateLoRaPayloadSymbolNumber works in float64:
        a := 8*pl - 4*sf + 28 + 16 - 20*h;  b := 4*(sf - 2*de);  c := cr + 4
+       if sf <= 6 { a = 8*pl - 4*sf + 20 + 16 - 20*h; b = 4*sf }      (SF5/SF6, since the fix commit)
        int(8 + math.Max(math.Ceil(a/b)*c, 0))
    The model computes the same value over Z.  Why this is exact: for |pl|, |sf|
    < 2^40 all of pl, sf, a, b, c are integers of magnitude < 2^53, so float64
@@ -46,8 +47,12 @@ Definition preamble_duration (sd n : Z) : Z :=
 
 Definition b2z (b : bool) : Z := if b then 1 else 0.
 
-Definition sym_a (pl sf : Z) (header : bool) : Z := 8 * pl - 4 * sf + 28 + 16 - 20 * b2z (negb header).
-Definition sym_b (sf : Z) (ldro : bool) : Z := 4 * (sf - 2 * b2z ldro).
+(* SF5 and SF6 (sf <= 6 in the code) use the SX126x/SX128x form: numerator without the + 8, denominator 4*SF *)
+Definition sym_a (pl sf : Z) (header : bool) : Z :=
+  if sf <=? 6 then 8 * pl - 4 * sf + 20 + 16 - 20 * b2z (negb header)
+  else 8 * pl - 4 * sf + 28 + 16 - 20 * b2z (negb header).
+Definition sym_b (sf : Z) (ldro : bool) : Z :=
+  if sf <=? 6 then 4 * sf else 4 * (sf - 2 * b2z ldro).
 
 (* ceil (a / b) for b <> 0 *)
 Definition ceil_div (a b : Z) : Z := - ((- a) / b).
@@ -60,9 +65,25 @@ Definition payload_symbols (pl sf cr : Z) (header ldro : bool) : outcome Z :=
   if (cr <? 1) || (4 <? cr) then Err
   else Ok (8 + Z.max (ceil_div (sym_a pl sf header) (sym_b sf ldro) * (cr + 4)) 0).
 
-(* CalculateLoRaAirtime: symbol duration first (a zero bandwidth panics before the coding rate is looked at) *)
+(* CalculateLoRaAirtime (after commits "fix: airtime of SF5 and SF6 ..." and "fix: airtime ... one division"):
+     n, err := CalculateLoRaPayloadSymbolNumber(...); if err != nil { return 0, err }
+     symbols := int64(100*preambleNumber + 425 + 100*n); if sf <= 6 { symbols += 200 }
+     return Duration(symbols * (int64(1) << uint(sf)) * 1000000 / (100 * int64(bandwidth)))
+   (a zero bandwidth panics, after the coding rate has been checked) *)
 Definition airtime (pl sf bw pre cr : Z) (header ldro : bool) : outcome Z :=
+  do n <- payload_symbols pl sf cr header ldro;
+  let s0 := wrap64 (wrap64 (wrap64 (100 * pre) + 425) + wrap64 (100 * n)) in
+  let s := if sf <=? 6 then wrap64 (s0 + 200) else s0 in
+  go_div (wrap64 (wrap64 (s * shl1 sf) * 1000000)) (wrap64 (100 * bw)).
+
+(* the code before those two commits: helpers composed, SF7..12 formula for every SF *)
+Definition sym_a_orig (pl sf : Z) (header : bool) : Z := 8 * pl - 4 * sf + 28 + 16 - 20 * b2z (negb header).
+Definition sym_b_orig (sf : Z) (ldro : bool) : Z := 4 * (sf - 2 * b2z ldro).
+Definition payload_symbols_orig (pl sf cr : Z) (header ldro : bool) : outcome Z :=
+  if (cr <? 1) || (4 <? cr) then Err
+  else Ok (8 + Z.max (ceil_div (sym_a_orig pl sf header) (sym_b_orig sf ldro) * (cr + 4)) 0).
+Definition airtime_orig (pl sf bw pre cr : Z) (header ldro : bool) : outcome Z :=
   do sd <- symbol_duration sf bw;
   let p := preamble_duration sd pre in
-  do n <- payload_symbols pl sf cr header ldro;
+  do n <- payload_symbols_orig pl sf cr header ldro;
   Ok (wrap64 (p + wrap64 (n * sd))).
